@@ -217,7 +217,8 @@ func r8Base64(in []byte) string {
 }
 
 // VH_C08_SpecConformance: for versions 1b1/1b2/1b3, request URL from {short, 24 bytes, 256 bytes}, a response
-// header "X-Long" whose value length is from the CBOR length classes {0,1,23,24,255,256} (symbolic content), an
+// header "X-Long" whose value length is from the CBOR length classes {0,1,24,256,40000} (quick) /
+// {0,1,23,24,255,256,32767,32768,65535,65536} (thorough) (symbolic content, long values with symbolic end bytes), an
 // optional second multi-valued mixed-case header, statuses {200,404}, method GET/HEAD, SYMBOLIC date and expires
 // (all non-negative int64) and a symbolic 32-byte cert-sha256 (or none): serializeSignedMessage, the header CBOR
 // (DumpExchangeHeaders), the file layout (Write) and the header-integrity string equal an independent
@@ -237,11 +238,23 @@ func VH_C08_SpecConformance() {
 		}
 		url = string(b)
 	}
-	lens := []int{0, 1, 23, 24, 255, 256}
+	lens := []int{0, 1, 23, 24, 255, 256, 32767, 32768, 65535, 65536}
 	if vh.Tier() == 0 {
-		lens = []int{0, 1, 24, 256}
+		lens = []int{0, 1, 24, 256, 40000}
 	}
-	long := vh.String("long", lens[vh.Choose(len(lens))])
+	ln := lens[vh.Choose(len(lens))]
+	var long string
+	if ln <= 256 {
+		long = vh.String("long", ln)
+	} else {
+		// long values: constant filler with symbolic first and last byte
+		b := make([]byte, ln)
+		for i := range b {
+			b[i] = 'v'
+		}
+		b[0], b[ln-1] = vh.Byte("long.first"), vh.Byte("long.last")
+		long = string(b)
+	}
 	status := []int{200, 404}[vh.Choose(2)]
 	method := []string{"GET", "HEAD"}[vh.Choose(2)]
 	respH := http.Header{"X-Long": []string{long}, "Content-Type": []string{"text/html"}}
